@@ -2,7 +2,7 @@
    (nodes / edges consistent, as ContractionProcessor.check() asserts) is preserved by every
    primitive, no KeyError is ever flagged, and the pipelines end with exactly one node *)
 From Coq Require Import Lia Permutation.
-From Ctg Require Import Base Net PathValid Processor BaseFacts PathValidFacts ProcessorFacts SsaLinearFacts RefineFacts.
+From Ctg Require Import Base Net PathValid Processor BaseFacts PathValidFacts ProcessorFacts SsaLinearFacts RefineFacts BuilderFacts.
 
 (* ------------------------------------------------------------------ *)
 (* association lists                                                    *)
@@ -812,4 +812,96 @@ Proof.
     split; [eapply edge_member_present; eassumption|]. split; [eapply edge_member_present; eassumption|].
     apply H3. destruct W as [_ HE]. now destruct (HE ix ns Gx).
   - apply greedy_loop_good. exact I1.
+Qed.
+
+(* ------------------------------------------------------------------ *)
+(* a fresh processor is well formed                                     *)
+Lemma ins_leg_perm x l : Permutation (ins_leg x l) (x :: l).
+Proof.
+  induction l as [|y l IH]; cbn; [apply Permutation_refl|]. destruct (Nat.leb (fst x) (fst y)); [apply Permutation_refl|].
+  eapply perm_trans; [apply perm_skip, IH|apply perm_swap].
+Qed.
+Lemma sort_legs_in ix t : In ix (map fst (sort_legs t)) <-> In ix t.
+Proof.
+  unfold sort_legs.
+  assert (P : Permutation (fold_right ins_leg [] (map (fun ix0 => (ix0, 1)) t)) (map (fun ix0 => (ix0, 1)) t)).
+  { induction (map (fun ix0 : nat => (ix0, 1)) t) as [|x l IH]; cbn; [constructor|].
+    eapply perm_trans; [apply ins_leg_perm|now apply perm_skip]. }
+  apply (Permutation_map fst) in P. rewrite map_map in P. cbn [fst] in P. rewrite map_id in P.
+  split; apply Permutation_in; [exact P|apply Permutation_sym; exact P].
+Qed.
+Lemma nget_enumerate {V} (l : list V) d : forall k j, j < length l -> nget (k + j) (enumerate_from k l) = Some (nth j l d).
+Proof.
+  induction l as [|x l IH]; intros k j H; [cbn in H; lia|]. cbn [enumerate_from nget].
+  destruct j as [|j].
+  - rewrite Nat.add_0_r, Nat.eqb_refl. reflexivity.
+  - replace (Nat.eqb k (k + S j)) with false by (symmetry; apply Nat.eqb_neq; lia).
+    replace (k + S j) with (S k + j) by lia. cbn [nth]. apply IH. cbn in H. lia.
+Qed.
+
+Lemma cp_init_good inputs output sizes : inputs <> [] ->
+  Good (cp_init inputs output sizes) /\ cp_initial (length inputs) (cp_init inputs output sizes).
+Proof.
+  intros Hne. set (n := length inputs).
+  assert (Hkeys : keys (cp_init inputs output sizes) = seq 0 n).
+  { unfold keys, cp_init. cbn [cp_nodes]. now rewrite enumerate_keys, map_length. }
+  split; [|repeat split; try reflexivity; exact Hkeys].
+  split; [reflexivity|]. split.
+  { unfold KInv. rewrite Hkeys. cbn [cp_init cp_ssa]. split; [apply seq_NoDup|]. intros k Hk. apply in_seq in Hk. unfold n in *. lia. }
+  split.
+  { unfold EW, cp_init. cbn [cp_edges cp_nodes]. split.
+    - rewrite map_map. cbn [fst]. rewrite map_id. apply uniq_nodup.
+    - intros ix ns G. apply nget_in_pair in G. apply in_map_iff in G as (ix' & Heq & _). injection Heq as -> <-.
+      split; [apply NoDup_filter, seq_NoDup|]. intros j Hj. apply filter_In in Hj as [Hj Hm]. apply in_seq in Hj.
+      exists (sort_legs (nth j inputs [])). split.
+      + pose proof (nget_enumerate (map sort_legs inputs) (sort_legs []) 0 j) as E. rewrite map_length in E.
+        cbn [plus] in E. rewrite E by lia. f_equal. apply (map_nth sort_legs).
+      + apply sort_legs_in. now apply memb_In. }
+  rewrite Hkeys. destruct inputs; [congruence|discriminate].
+Qed.
+
+(* ------------------------------------------------------------------ *)
+(* THE UNCONDITIONAL PIPELINE THEOREMS                                  *)
+Definition orders_ok (orders : list (list (list nat))) : Prop := Forall (fun o => NoDup o) orders.
+
+Theorem greedy_pipeline_total inputs output sizes orders sco : inputs <> [] -> orders_ok orders ->
+  let c' := cp_remaining (cp_greedy_sc sco (cp_simplify orders (cp_init inputs output sizes))) in
+  cp_ok c' = true /\ length (cp_nodes c') = 1.
+Proof.
+  intros Hne Ho c'. destruct (cp_init_good inputs output sizes Hne) as [G0 _].
+  destruct (cp_remaining_good (cp_greedy_sc sco (cp_simplify orders (cp_init inputs output sizes)))) as [G L].
+  - apply cp_greedy_sc_good, cp_simplify_good; assumption.
+  - split; [apply G|exact L].
+Qed.
+
+Theorem greedy_pipeline_valid inputs output sizes orders sco : inputs <> [] -> orders_ok orders ->
+  let n := length inputs in
+  let c' := cp_remaining (cp_greedy_sc sco (cp_simplify orders (cp_init inputs output sizes))) in
+  ssa_path_valid n (cp_path c') = true /\
+  exists q, ssa_to_linear n (cp_path c') = Some q /\ linear_path_valid n q = true.
+Proof.
+  intros Hne Ho n c'. destruct (cp_init_good inputs output sizes Hne) as [_ Hi].
+  destruct (greedy_pipeline_total inputs output sizes orders sco Hne Ho) as [O L]. fold c' in O, L.
+  assert (R : Ref (cp_init inputs output sizes) c').
+  { eapply Ref_trans; [apply cp_simplify_Ref|]. eapply Ref_trans; [apply cp_greedy_sc_Ref|apply cp_remaining_Ref]. }
+  pose proof (Ref_valid n _ c' Hi R O) as V.
+  assert (Vb : ssa_path_valid n (cp_path c') = true).
+  { unfold ssa_path_valid. rewrite V. unfold keys. rewrite map_length, L. reflexivity. }
+  split; [exact Vb|]. now apply ssa_to_linear_complete.
+Qed.
+
+(* simplify only / remaining only (optimize_simplify; leftovers without greedy) *)
+Theorem remaining_pipeline_valid inputs output sizes orders (simp : bool) : inputs <> [] -> orders_ok orders ->
+  let n := length inputs in
+  let c0 := cp_init inputs output sizes in
+  let c' := cp_remaining (if simp then cp_simplify orders c0 else c0) in
+  cp_ok c' = true /\ length (cp_nodes c') = 1 /\ ssa_path_valid n (cp_path c') = true.
+Proof.
+  intros Hne Ho n c0 c'. destruct (cp_init_good inputs output sizes Hne) as [G0 Hi].
+  assert (G1 : Good (if simp then cp_simplify orders c0 else c0)) by (destruct simp; [now apply cp_simplify_good|exact G0]).
+  destruct (cp_remaining_good _ G1) as [G L]. fold c' in G, L.
+  assert (R : Ref c0 c').
+  { destruct simp; [eapply Ref_trans; [apply cp_simplify_Ref|apply cp_remaining_Ref]|apply cp_remaining_Ref]. }
+  pose proof (Ref_valid n c0 c' Hi R (proj1 G)) as V.
+  split; [apply G|]. split; [exact L|]. unfold ssa_path_valid. rewrite V. unfold keys. now rewrite map_length, L.
 Qed.
